@@ -113,11 +113,21 @@ def part_corr(ctx, jobs, res, atts, only=None):
     preds = {}
     ctor_sets = {p: cr.ctor_scenarios(p) for p in (False, True)}
     cpreds = {}
+    # one batch for all model evaluations (sharded and run in parallel by coqrun)
+    keys, exprs = [], []
     for p in (False, True):
         for tr in (False, True):
-            preds[(p, tr)] = [cr.split_obs(v) for v in cr.model_predict(scen_sets[p], p, tr, f"c09m_{int(p)}{int(tr)}")]
-            cpreds[(p, tr)] = [cr.split_obs(v) for v in coqrun.eval_zlists(
-                "From Verif Require Import C09.Lock.\n", [cr.ctor_model_expr(s, p, tr) for s in ctor_sets[p]], f"c09c_{int(p)}{int(tr)}", shard=10)]
+            P = "transient_params" if tr else "storage_params"
+            probes = "; ".join(cc.coq_node(x, p) for x in cr.probe_nodes())
+            for s in scen_sets[p]:
+                keys.append(("s", p, tr))
+                exprs.append(f"observe_seq {P} false [{cc.coq_node(s.top, p)}; {probes}] (init_state {P})")
+            for s in ctor_sets[p]:
+                keys.append(("c", p, tr))
+                exprs.append(cr.ctor_model_expr(s, p, tr))
+    outs = coqrun.eval_zlists("From Verif Require Import C09.Lock.\n", exprs, "c09m", shard=150)
+    for (kind, p, tr), v in zip(keys, outs):
+        (preds if kind == "s" else cpreds).setdefault((p, tr), []).append(cr.split_obs(v))
     import time as _t
     ctx.log(f'model predictions at {_t.time() - ctx.t0:.0f}s')
     n_eval = n_nontrivial = n_oracle = n_mismatch = 0
